@@ -90,3 +90,18 @@ def _store_repeated(case, v):
     if v.get("cls") not in ("target_missing", "target_content_wrong"):
         return False
     return bool(v.get("shared_ancestry")) and v.get("n_pairs", 1) > 1
+
+
+@matcher("zero_length_dim_block_shape")
+def _zero_len_c12(case, v):
+    if v.get("cls") != "block_shape_mismatch":
+        return False
+    from gen.programs import OPS
+
+    ops = _zero_size_operand_ops(case)
+    return any(o in OPS and OPS[o].arity >= 2 for o in ops)
+
+
+@matcher("store_repeated_lazy_source_c05")
+def _store_repeated_c05(case, v):
+    return v.get("cls") == "wrong_value_under_interleaving" and bool(v.get("shared_ancestry")) and v.get("n_pairs", 1) > 1
